@@ -180,9 +180,9 @@ def audit_axioms(theorems, imports):
     txt = r.stdout + r.stderr
     res = {}
     # output: 'thm' depends on axioms: [a, b]   |  'thm' does not depend on any axioms
-    for m in re.finditer(r"^'(.+?)' depends on axioms: \[([^\]]*)\]", txt, re.S | re.M):
+    for m in re.finditer(r"^'([^\n]+?)' depends on axioms: \[([^\]]*)\]", txt, re.M):
         res[m.group(1)] = [a.strip() for a in m.group(2).replace("\n", " ").split(",") if a.strip()]
-    for m in re.finditer(r"^'(.+?)' does not depend on any axioms", txt, re.M):
+    for m in re.finditer(r"^'([^\n]+?)' does not depend on any axioms", txt, re.M):
         res[m.group(1)] = []
     missing = [t for t in theorems if t not in res]
     return res, missing, txt[-2000:]
